@@ -105,6 +105,22 @@ class Jobs:
 
 
 def run(ctx):
+    try:
+        _run(ctx)
+        _by_binding(ctx)
+    except CheckerError as e:
+        # Violations already established on the real code stay violations when a later stage cannot complete
+        # (typically because of the same defect); without any, the checker is in trouble and says so.
+        if not ctx.mismatches:
+            raise
+        first = str(e).splitlines()[0][:300] if str(e) else "?"
+        print("C20 note: a later stage did not complete after violations had been found: %s" % first)
+        ctx.notes.append("incomplete run: " + first)
+        ctx.exhaustive = False
+        _by_binding(ctx)
+
+
+def _run(ctx):
     q = ctx.tier == "quick"
     d = ctx.spec_copy("http")
     ctx.rule = ("G: every middleware list of MwChain.tla (kinds x nesting x base handler) and every call sequence of "
@@ -119,6 +135,8 @@ def run(ctx):
         "passed and the status its client got are accepted (the code as written records the last one)",
         "request ids are embedded in method-independent fields (URL, host, RemoteAddr, headers, body, context)",
         "handlers that panic are out of scope of the statement",
+        "ownership of the three pooled objects is taken to last, as written, from their Get until the finished "
+        "record has been handed to the base handler (the event log marks the release there, before the real Puts)",
     ]
     w_each = max(2, NCPU // 3)
     jobs = Jobs(ctx, 3)
@@ -152,7 +170,9 @@ def run(ctx):
         pols = ["own"] * 3
         pols[k] = "any"
         cfg = "LogMwMC3_%s.cfg" % pool
-        write_cfg(d / cfg, "Spec", _consts(3, "MCNeg" if q else "MCSome", pols=pols), invariants=ALL_INV, view="View")
+        # handler behaviours only matter to the response-writer pool: it gets the larger set in thorough
+        init = "MCSome" if (not q and pool == "rw") else "MCNeg"
+        write_cfg(d / cfg, "Spec", _consts(3, init, pols=pols), invariants=ALL_INV, view="View")
         jobs.add("logmw-mc3-" + pool, tlc("LogMwMC", cfg, "logmw-mc: 3 requests, all interleavings, %s pool" % pool,
                                           timeout=1500))
     if not q:
@@ -273,9 +293,8 @@ def run(ctx):
 
     # ---- 5. T: free-running stress under the race detector
     clients, reqs, tcl, treq = (16, 200, 8, 60) if q else (32, 200, 16, 200)
-    ctx.vh(["c20", "stress", ctx.scratch / "stress.res", d / "logmw_trace.ndjson", clients, reqs, tcl, treq],
-           race=True, timeout=1500)
-    s = ctx.collect(ctx.scratch / "stress.res")
+    p = ctx.vh(["c20", "stress", ctx.scratch / "stress.res", d / "logmw_trace.ndjson", clients, reqs, tcl, treq],
+               race=True, timeout=1500, fatal_key="LogMiddleware -race stress")
     golibs, other = ctx.race_reports()
     if other:
         raise CheckerError("race report without golibs frames (harness bug):\n" + other[0][:3000])
@@ -287,28 +306,41 @@ def run(ctx):
         ctx.mismatch("LogMiddleware -race stress: DATA RACE at " + where,
                      "the race detector reports a data race in golibs code while concurrent requests pass through one "
                      "LogMiddleware", {"report": rep[:6000]})
-    write_cfg(d / "LogMwTraceT.cfg", "TSpec", _consts(tcl, None, policy="any", keep=False, maxobj=1000000))
-    validate_trace(ctx, d, "LogMwTrace", "LogMwTraceT.cfg", "logmw_trace.ndjson",
-                   "LogMiddleware event log of the free-running stress", timeout=1500)
-    ctx.evaluations += s["requests"]
-    ctx.distinct += s["distinct_nontrivial"]
-    ctx.traces += 1
-    policy += s.get("code_policy_differs", 0)
-    ctx.extra["stress_requests"] = s["requests"]
-    ctx.extra["stress_trace_events_validated"] = s["trace_events"]
     ctx.extra["race_reports"] = len(golibs)
+    s = {}
+    if p.returncode == 0:
+        s = ctx.collect(ctx.scratch / "stress.res")
+        write_cfg(d / "LogMwTraceT.cfg", "TSpec", _consts(tcl, None, policy="any", keep=False, maxobj=1000000))
+        validate_trace(ctx, d, "LogMwTrace", "LogMwTraceT.cfg", "logmw_trace.ndjson",
+                       "LogMiddleware event log of the free-running stress", timeout=1500)
+        ctx.evaluations += s["requests"]
+        ctx.distinct += s["distinct_nontrivial"]
+        ctx.traces += 1
+        policy += s.get("code_policy_differs", 0)
+        ctx.extra["stress_requests"] = s["requests"]
+        ctx.extra["stress_trace_events_validated"] = s["trace_events"]
+    else:
+        # The Go runtime aborted the stress inside the code under test (recorded as a mismatch by ctx.vh):
+        # there is no result file and no complete event log to validate.
+        ctx.notes.append("the -race stress was aborted by the Go runtime; its oracle and trace validation did not run")
     diverge += s.get("code_differs_from_client_status", 0)
     ctx.extra["finished_code_differs_from_last_writeheader"] = policy
     # double WriteHeader / WriteHeader after Write: the code as written logs the last code passed while the
     # client got the first (net/http) - accepted, see assumptions; counted so that the evidence shows it.
     ctx.extra["finished_code_differs_from_client_status"] = diverge
 
-    # which binding produced the mismatches (mutation testing reads this line)
+    ctx.extra["loopback_requests"] = s.get("loopback_requests", 0)
+    if s.get("loopback_skipped"):
+        ctx.notes.append("loopback phase skipped: %s" % s["loopback_skipped"])
+
+
+def _by_binding(ctx):
+    """Which binding produced the mismatches (mutation testing reads this line)."""
     stages = {"G:Wrap": 0, "G:CodeRecorder": 0, "S:schedules": 0, "T:stress-oracle": 0, "T:loopback": 0,
-              "T:race-detector": 0, "T:tlc-trace": 0}
+              "T:race-detector": 0, "T:runtime-abort": 0, "TLC-trace": 0}
     for m in ctx.mismatches:
         k = m["key"]
-        if k.startswith("Wrap("):
+        if k.startswith("Wrap(") and "event #" not in k:
             stages["G:Wrap"] += 1
         elif k.startswith("CodeRecorderResponseWriter"):
             stages["G:CodeRecorder"] += 1
@@ -316,24 +348,48 @@ def run(ctx):
             stages["S:schedules"] += 1
         elif "DATA RACE" in k:
             stages["T:race-detector"] += 1
+        elif "fatal error" in k:
+            stages["T:runtime-abort"] += 1
         elif "loopback" in k:
             stages["T:loopback"] += 1
         elif k.startswith("LogMiddleware stress"):
             stages["T:stress-oracle"] += 1
         else:
-            stages["T:tlc-trace"] += 1
+            stages["TLC-trace"] += 1
     ctx.extra["mismatches_by_binding"] = stages
-    ctx.extra["loopback_requests"] = s.get("loopback_requests", 0)
-    if s.get("loopback_skipped"):
-        ctx.notes.append("loopback phase skipped: %s" % s["loopback_skipped"])
     if ctx.mismatches:
         print("C20 mismatches by binding: " + ", ".join("%s=%d" % kv for kv in stages.items() if kv[1]))
 
 
 def replay(ctx, path):
+    """Re-execute one recorded failing list / call sequence / schedule against the current tree."""
     r = json.load(open(path))
-    print(json.dumps(r, indent=1, ensure_ascii=False)[:6000])
-    print("re-run: bin/check C20 %s  (VERIF_SEED=%s; lists, call sequences and exhaustive schedules are enumerated "
-          "again by the generators; sampled schedules and the stress are reproduced by the seed)"
-          % (r.get("tier", "quick"), r.get("seed", 1)))
-    return 0
+    key = r.get("key", "")
+    det = r.get("detail") or {}
+    print("property C20, recorded failure: %s\n  %s" % (key, r.get("what")))
+    vec, cmd, env = None, None, {}
+    if key.startswith("LogMiddleware requests=") and isinstance(det.get("vector"), dict):
+        vec, cmd = det["vector"], "replay-sched"
+        env["C20_WARM"] = "1" if "warm-up" in key else "0"
+    elif key.startswith("Wrap(") and "mws" in det:
+        vec, cmd = det, "replay-chain"
+    elif key.startswith("CodeRecorderResponseWriter") and "ops" in det:
+        vec, cmd = det, "replay-coderec"
+    if vec is None:
+        print(json.dumps(det, indent=1, ensure_ascii=False)[:6000])
+        print("re-run: VERIF_SEED=%s bin/check C20 %s  (the stress / trace is reproduced by the seed up to scheduling)"
+              % (r.get("seed", 1), r.get("tier", "quick")))
+        return 0
+    vf = ctx.scratch / "replay.ndjson"
+    vf.write_text(json.dumps(vec) + "\n")
+    ctx.vh(["c20", cmd, vf, ctx.scratch / "replay.res"], env=env)
+    ctx.collect(ctx.scratch / "replay.res")
+    print("specification's prediction / vector: %s" % json.dumps(vec)[:3000])
+    if not ctx.mismatches:
+        print("the current tree behaves as specified on this input")
+        return 0
+    for m in ctx.mismatches:
+        print("REPRODUCED: %s\n  %s" % (m["key"], m["what"]))
+        for x in ((m.get("detail") or {}).get("problems") or [])[:8]:
+            print("    - %s" % x)
+    return 1
